@@ -2146,12 +2146,16 @@ class Measurement:
             return NotImplemented
 
         measurand = self.measurand**exponent
+        if exponent == 0:
+            return Measurement(measurand, 0)
+
+        # d(x**n)/dx = n * x**(n - 1)
         uncertainty = math.sqrt(
             _pow(
                 _mul(
                     exponent,
                     _mul(
-                        _pow(self.measurand.magnitude, 2),
+                        _pow(self.measurand.magnitude, exponent - 1),
                         self.uncertainty.magnitude,
                     ),
                 ),
